@@ -91,7 +91,10 @@ Tight   == [q |-> "<sq>", comma |-> <<",">>, colon |-> <<":">>, eq |-> <<"=">>, 
 Spaced  == [q |-> "<dq>", comma |-> <<" , ">>, colon |-> <<" : ">>, eq |-> <<" = ">>, semi |-> <<" ; ">>, lead |-> <<" ">>, trail |-> <<" ;">>]
 Broken  == [q |-> "<sq>", comma |-> <<",", "<nl>", "  ">>, colon |-> <<":", "<nl>">>, eq |-> <<" =", "<nl>", " ">>, semi |-> <<";", "<nl>">>,
             lead |-> <<"<nl>">>, trail |-> <<";", "<nl>">>]
-Styles == <<Tight, Spaced, Broken>>
+\* separators FIRST on the line (line break / tab before the separator, not only after it)
+CommaFirst == [q |-> "<dq>", comma |-> <<"<nl>", ",", "<tab>">>, colon |-> <<"<tab>", ":", "<nl>">>, eq |-> <<"<nl>", "=", "<tab>">>, semi |-> <<"<nl>", ";", "<tab>">>,
+               lead |-> <<"<tab>">>, trail |-> <<"<nl>", ";", "<tab>">>]
+Styles == <<Tight, Spaced, Broken, CommaFirst>>
 
 -----------------------------------------------------------------------------
 (* Meaning. *)
